@@ -42,6 +42,7 @@ THEOREMS_CLOSED3 = [
     "Ymq.C01.factor_exact_closed_v3",
     "Ymq.C01.factor_total_closed_v3",
     "Ymq.C01.pp_none_not_tried_power",
+    "Ymq.C01.rho_call_sites_return",
 ]
 MODELLED = ["pollard_rho.rs rho (budget table by bit length, c = 1..9, first success) and rho_semiprime (three windows, or_else chains) line by line over the "
             "word-exact rho64 model of C16 (Ymq/Model/PollardRho.lean); every overflow / debug_assert site of rho64 is a `none`"]
@@ -134,6 +135,14 @@ def spec(case):
 
 # long cycles: semiprimes on which the first polynomial(s) fail within the budget rho selects (found by search with the mirror)
 HARD = [409891 * 69890423, 3575609 * 3575627, 40726549 * 40726553, 43789153 * 43789159]
+# literal, found once with the mirror (search over products of two primes 211..4000): the polynomial c that first succeeds
+BY_C = {4: [9365581, 11732813], 5: [10156969, 7244051], 6: [5166529]}
+# the answer of rho changes when the budget of the size class is halved (one pair per row of the budget table)
+BUDGET = {24: [9097471, 9491639], 32: [2382236371, 2737483079], 40: [621886178423, 776639508929], 48: [180245808786737, 148985101883941],
+          52: [2682896678906321, 2508814856190781], 57: [85022385885250171, 118479202198679317], 62: [3703608583010425589, 2544157002818474623],
+          64: [9694263783331916101, 13006189075539673571]}
+# same for the three windows of rho_semiprime
+SEMI_BUDGET = {40: [1003284248773, 836642950411], 48: [142141810893479, 164222876983073], 56: [44265665937497101, 40741448522010157]}
 WINDOW_BITS = [24, 25, 32, 33, 40, 41, 48, 49, 52, 53, 57, 58, 62, 63, 64]
 
 
@@ -189,9 +198,15 @@ def cases(tier, rng, extended=False):
             yield from mk("rho", n, "handed-over")
             if k == 2:
                 yield from mk("rho_semiprime", n, "handed-over")
-    for n in HARD:
+    for n in HARD + [x for l in BY_C.values() for x in l]:
         yield from mk("rho", n, "hard")
         yield from mk("rho_semiprime", n, "hard")
+    for l in BUDGET.values():
+        for n in l:
+            yield from mk("rho", n, "budget")
+    for l in SEMI_BUDGET.values():
+        for n in l:
+            yield from mk("rho_semiprime", n, "budget")
     # top of the word: the eight odd values above 2^64 - 17 are outside the no-panic theorem (each has a prime factor <= 53)
     for k in range(1, 100, 2):
         yield from mk("rho", W - k, "top")
